@@ -4,6 +4,7 @@ import NodisVerif.Proofs.C09Full
 import NodisVerif.Proofs.C09Writers3
 import NodisVerif.Proofs.C09IncrExec
 import NodisVerif.Proofs.GateInv
+import NodisVerif.Proofs.GeoReads
 /-
   C09 — WATCH is sound optimistic locking: a changed watched key always aborts EXEC.
 
@@ -252,7 +253,7 @@ theorem sigInv_reachable {H : Table} (hH : TableSignals H) (st : MState) (hp : s
     QueuesSignal (run H { store := st } cs).1 ∧ (run H { store := st } cs).1.store.pebble = true :=
   SigInv.run hH cs ⟨QueuesSignal.init st, hp⟩
 
-/-! ### the server's complete dispatch: `fullTable = Driver.lookup [table1, table2, table3]`
+/-! ### the server's complete dispatch: `fullTable = Driver.lookup [table1, table2, table3, table4]`
 
   (connection / keyspace / strings; lists / hashes / sets; sorted sets and the *SCAN commands —
   `Main.tables`).  FULL STATEMENT `TableSignals fullTable` is FALSE / not fully proved; the exact
@@ -267,8 +268,13 @@ theorem sigInv_reachable {H : Table} (hH : TableSignals H) (st : MState) (hp : s
     commands are excluded from the table-level theorem and covered by `table3_tells_partial` below
     (store-relative region).
   * NOT PROVED: SCAN with a TYPE option (it loads cold records; needs an index invariant).
-  * everything else — all other 100-odd commands and option combinations of the three tables —
-    signals every key it changes: `fullSafe_signals`.
+  * NOT PROVED: SAVE (`Store.flush` rewrites the persistence bookkeeping of every record; that it leaves the
+    logical content alone is C11 / C12's subject, not shown again here).
+  * UNREACHABLE REGION, left out: GEOADD with NX / XX as argument 1 (`T4.geoAddOpt`) - the handler then reads the
+    option word as a longitude and replies an error before `execCommand`; the closure it would build calls
+    `GeoAddNX`, which creates the key without signalling (FINDINGS.md).
+  * everything else — all other 110-odd commands and option combinations of the four tables, GEOADD and the
+    GEO reads included (`table4_signals`) — signals every key it changes: `fullSafe_signals`.
 -/
 
 /-- the complete dispatch minus the excluded region satisfies the well-formedness predicate -/
@@ -806,5 +812,37 @@ end gate
    the model are given as `_partial` + `_finding`: TableSignals (DECRBY -2^63), writers_signal_addInt,
    writers_signal_setRange.  Scope limit (stated hypothesis): the writers table and
    `watch_sound_changed` are for the Pebble backend (`hypothesis_pebble_is_necessary`). -/
+
+/-! ### the commands that joined the model with `Handler4.table4` (work package D) -/
+
+section table4
+open NodisVerif.Proofs.C08Step.T4 NodisVerif.Proofs.GeoReads
+
+/-- CLIENT, CONFIG, INFO, QUIT, GEOADD (outside the unreachable NX / XX region), GEOHASH, GEOPOS, GEODIST,
+    GEORADIUS, GEORADIUSBYMEMBER: every closure signals every key whose logical content it changes -/
+theorem table4_signals : TableSignals table4Safe := table4Safe_signals
+
+/-- GEOADD (the API function behind the handler): whatever key's logical content changes is signalled -
+    which is its own key, signalled once after the last `ZAdd` (this was a defect: `GeoAdd` changed a
+    sorted set without telling the watchers; found by the regenerated `writers` table, repaired) -/
+theorem geoadd_signals_its_key (s : MState) (hp : s.pebble = true) (now : Int) (key : Bytes)
+    (items : List (Bytes × F64)) (k : Bytes) :
+    NodisVerif.Proofs.C09Writers.changed s (Handler4.geoAdd s now key items).1 k →
+      k ∈ (Handler4.geoAdd s now key items).1.signalled :=
+  (frame_geoAdd s hp now key items).sound k
+
+/-- the read commands of the GEO family never write: started as `runBody` starts every closure, they signal
+    nothing, emit no change record, and leave every record logically as it was -/
+theorem geo_reads_never_write (name : String) (args : List Bytes) (b : Body) (hn : name ∈ geoReads)
+    (h : Handler4.table4 name args = some (.exec b)) (st : MState) (now : Int) (ch : Choice) (h0 : st.signalled = []) :
+    (b st now ch).store.signalled = [] ∧ (b st now ch).store.feed = st.feed ∧
+    ∀ k, NodisVerif.Proofs.C09Writers.unchanged (Store.getMeta st k) (Store.getMeta (b st now ch).store k) :=
+  readOnly_effect (geoReads_readOnly name args b hn h) st now ch h0
+
+/-- hypotheses satisfiable: GEOPOS on a store holding a geo key -/
+example : ∃ b, Handler4.table4 "GEOPOS" [[103], [109]] = some (.exec b) := ⟨_, rfl⟩
+example : "GEOPOS" ∈ geoReads := by decide
+
+end table4
 
 end NodisVerif.C09
